@@ -323,4 +323,208 @@ theorem extractLong_protect (mask : MaskFn) (env : Env) (isServer : Bool) (ts : 
     congr 3
     omega
 
+theorem beNat_fold_eq_zero (d : Bytes) (a : Nat) :
+    d.foldl (fun acc x => acc * 256 + x.toNat) a = 0 ↔ a = 0 ∧ ∀ x ∈ d, x = 0 := by
+  induction d generalizing a with
+  | nil => simp
+  | cons y ys ih =>
+    rw [List.foldl_cons, ih]
+    constructor
+    · rintro ⟨h, h2⟩
+      have hy : y.toNat = 0 := by omega
+      refine ⟨by omega, ?_⟩
+      intro x hx
+      rcases List.mem_cons.mp hx with rfl | hx
+      · exact UInt8.toNat_inj.mp hy
+      · exact h2 x hx
+    · rintro ⟨rfl, h2⟩
+      have := h2 y (by simp)
+      subst this
+      exact ⟨by simp, fun x hx => h2 x (by simp [hx])⟩
+
+theorem beNat_eq_zero_iff (d : Bytes) : Bytes.beNat d = 0 ↔ ∀ x ∈ d, x = 0 := by
+  unfold Bytes.beNat
+  rw [beNat_fold_eq_zero]; simp
+
+theorem beNat_cons_ne_zero (x : UInt8) (r : Bytes) (h : x ≠ 0) : Bytes.beNat (x :: r) ≠ 0 := by
+  rw [Ne, beNat_eq_zero_iff]
+  intro hall
+  exact h (hall x (by simp))
+
+theorem beNat_replicate_zero (n : Nat) : Bytes.beNat (List.replicate n 0) = 0 := by
+  rw [beNat_eq_zero_iff]
+  intro x hx
+  exact (List.mem_replicate.mp hx).2
+
+theorem isLong_ne_zero (x : UInt8) (h : isLong x = true) : x ≠ 0 := by
+  rintro rfl
+  revert h
+  decide
+
+/-- C02 for one protected long-header packet at the level of `extract_quic_packet` -/
+theorem extract_protect_long (mask : MaskFn) (env : Env) (isServer : Bool) (guessed : Bytes) (ts : Nat) (p : Long)
+    (hwf : p.wf) (hver : p.version ≠ [0, 0, 0, 0]) (hscid : p.scid.length ≤ 63)
+    (h20 : 20 ≤ p.pn.length + p.payload.length)
+    (key m : Bytes) (hk : env.keys (senderKey p.ty isServer) = some key)
+    (hm : mask (senderChacha p.ty env.chacha) key p.sample = some m) (hm5 : 5 ≤ m.length) (rest : Bytes) :
+    extract mask env isServer guessed ts (p.protect m ++ rest) = { pkts := [p.toPkt isServer ts], rest := rest } := by
+  have h := extractLong_protect mask env isServer ts p hwf hver hscid h20 key m hk hm hm5 rest
+  have hL : isLong (p.first ^^^ (m.headD 0 &&& 0x0f)) = true := by
+    rw [isLong_mask _ _ _ (by decide)]; exact (long_first p hwf).1
+  have hc : p.protect m ++ rest = (p.first ^^^ (m.headD 0 &&& 0x0f)) ::
+      (p.mid ++ xorBytes p.pn ((m.drop 1).take p.pn.length) ++ p.payload ++ rest) := by
+    simp [Long.protect, applyMask]
+  unfold extract
+  rw [hc] at h ⊢
+  simp only [beNat_cons_ne_zero _ _ (isLong_ne_zero _ hL), if_false, hL, if_true, h]
+  rw [← hc, List.drop_left]
+
+theorem short_first_bits : ∀ s k : Fin 2, ∀ r l : Fin 4,
+    let f := UInt8.ofNat (0x40 + s.val * 0x20 + r.val * 8 + k.val * 4 + l.val)
+    isLong f = false ∧ (f &&& 3).toNat = l.val ∧ ((f >>> 2) &&& 1).toNat = k.val ∧ f >>> 6 = 1 := by decide
+
+theorem short_first (p : Short) (h : p.wf) :
+    isLong p.first = false ∧ (p.first &&& 3).toNat + 1 = p.pn.length ∧
+    ((p.first >>> 2) &&& 1).toNat = (if p.keyPhase then 1 else 0) ∧ p.first >>> 6 = 1 := by
+  obtain ⟨hr, h1, h4⟩ := h
+  have := short_first_bits ⟨if p.spin then 1 else 0, by split <;> omega⟩ ⟨if p.keyPhase then 1 else 0, by split <;> omega⟩
+    ⟨p.reserved, hr⟩ ⟨p.pn.length - 1, by omega⟩
+  simp only at this
+  unfold Short.first
+  have e1 : (if p.spin then 0x20 else 0) = (if p.spin then 1 else 0) * 0x20 := by split <;> rfl
+  have e2 : (if p.keyPhase then 4 else 0) = (if p.keyPhase then 1 else 0) * 4 := by split <;> rfl
+  rw [e1, e2]
+  exact ⟨this.1, by rw [this.2.1]; omega, this.2.2.1, this.2.2.2⟩
+
+theorem short_masked_ne_zero (f m : UInt8) (h : f >>> 6 = 1) : f ^^^ (m &&& 0x1f) ≠ 0 := by
+  intro h0
+  have : (f ^^^ (m &&& 0x1f)) >>> 6 = 1 := by
+    rw [UInt8.shiftRight_xor, UInt8.shiftRight_and, show (0x1f : UInt8) >>> 6 = 0 by decide, UInt8.and_zero,
+      UInt8.xor_zero, h]
+  rw [h0] at this
+  revert this
+  decide
+
+theorem extract_protect_short (mask : MaskFn) (env : Env) (isServer : Bool) (ts : Nat) (p : Short)
+    (hwf : p.wf) (h20 : 20 ≤ p.pn.length + p.payload.length)
+    (key m : Bytes)
+    (hk : env.keys (if isServer then .serverApplication else .clientApplication) = some key)
+    (hm : mask env.chacha key p.sample = some m) (hm5 : 5 ≤ m.length) :
+    extract mask env isServer p.dcid ts (p.protect m) = { pkts := [p.toPkt isServer ts], rest := [] } := by
+  obtain ⟨hS, hP, hK, h6⟩ := short_first p hwf
+  obtain ⟨hr, h1, h4⟩ := hwf
+  generalize hpnm : xorBytes p.pn ((m.drop 1).take p.pn.length) = pnm
+  have hpnml : pnm.length = p.pn.length := by
+    rw [← hpnm]; exact xorBytes_length _ _ (by simp only [List.length_take, List.length_drop]; omega)
+  generalize hd : p.protect m = d
+  have hd' : d = (p.first ^^^ (m.headD 0 &&& 0x1f)) :: (p.dcid ++ (pnm ++ p.payload)) := by
+    rw [← hd, ← hpnm]; simp only [Short.protect, applyMask, List.cons_append, List.append_assoc]
+  have hS' : isLong (p.first ^^^ (m.headD 0 &&& 0x1f)) = false := by
+    rw [isLong_mask _ _ _ (by decide)]; exact hS
+  have hnz := beNat_cons_ne_zero _ (p.dcid ++ (pnm ++ p.payload)) (short_masked_ne_zero p.first (m.headD 0) h6)
+  have e1 : d = ((p.first ^^^ (m.headD 0 &&& 0x1f)) :: p.dcid) ++ (pnm ++ (p.payload ++ [])) := by
+    rw [hd']; simp
+  have hlen : d.length = 1 + p.dcid.length + p.pn.length + p.payload.length := by
+    rw [hd']; simp only [List.length_cons, List.length_append, hpnml]; omega
+  have n1 : need d (1 + p.dcid.length) = .ok () := by
+    unfold need; rw [if_neg (by omega)]
+  have s1 : Bytes.slice d (1 + p.dcid.length + 4) (1 + p.dcid.length + 4 + 16) = p.sample := by
+    unfold Short.sample
+    rw [← sample_eq pnm p.pn p.payload [] hpnml h4 h20, e1]
+    simp only [Bytes.slice, Nat.add_sub_cancel_left]
+    rw [show 1 + p.dcid.length + 4 = ((p.first ^^^ (m.headD 0 &&& 0x1f)) :: p.dcid).length + 4 by
+      simp only [List.length_cons]; omega, ← List.drop_drop, List.drop_left]
+  have hr := removeHP_protect mask false env.chacha key p.sample m p.first d _ p.pn (p.payload ++ []) hm hm5 hP
+    (by rw [hpnm]; exact e1) (1 + p.dcid.length) (by simp only [List.length_cons]; omega)
+  simp only [Bool.false_eq_true, if_false] at hr
+  have e2 : d = ((p.first ^^^ (m.headD 0 &&& 0x1f)) :: p.dcid ++ pnm) ++ (p.payload ++ []) := by
+    rw [hd']; simp
+  have s2 : Bytes.slice d (1 + p.dcid.length + p.pn.length)
+      (1 + p.dcid.length + p.pn.length + (d.length - (1 + p.dcid.length + p.pn.length))) = p.payload :=
+    slice_split d _ p.payload [] _ _ e2 (by simp only [List.length_cons, List.length_append, hpnml]; omega) (by omega)
+  unfold extract
+  rw [hd']
+  simp only [hnz, if_false, hS']
+  rw [← hd']
+  unfold extractShort
+  have hge : ¬ d.length < 1 + p.dcid.length + p.pn.length := by omega
+  simp only [n1, s1, hk, ofOpt, bind, Except.bind, hr, s2, hge, if_false, hK, Short.toPkt, Bool.false_eq_true]
+  rw [List.drop_eq_nil_of_le (by omega)]
+
+theorem retry_first_bits : ∀ u : Fin 16, let f := UInt8.ofNat (0xF0 + u.val)
+    isLong f = true ∧ packetType f = .retry := by decide
+
+theorem verneg_first_bits : ∀ u : Fin 128, isLong (UInt8.ofNat (0x80 + u.val)) = true := by decide +kernel
+
+theorem extract_retry (mask : MaskFn) (env : Env) (isServer : Bool) (guessed : Bytes) (ts : Nat) (p : Retry)
+    (hwf : p.wf) (hver : p.version ≠ [0, 0, 0, 0]) (hscid : p.scid.length ≤ 63) :
+    extract mask env isServer guessed ts p.encode = { pkts := [p.toPkt isServer ts], rest := [] } := by
+  obtain ⟨hu, hv, hdl, hsl, htag⟩ := hwf
+  obtain ⟨hL, hT⟩ := retry_first_bits ⟨p.unused, hu⟩
+  simp only at hL hT
+  generalize hd : p.encode = d
+  have hd' : d = p.first :: (p.version ++ (UInt8.ofNat p.dcid.length :: (p.dcid ++
+      (UInt8.ofNat p.scid.length :: (p.scid ++ (p.token ++ p.tag)))))) := by
+    rw [← hd]; simp only [Retry.encode, List.cons_append, List.append_assoc, List.nil_append]
+  obtain ⟨n1, s1, g5, n2, s2, n3, dv, n4, s4⟩ := header_facts _ _ _ _ _ d hv hscid hd'
+  have hto := ofNat_toNat _ hdl
+  have hlen : d.length = 7 + p.dcid.length + p.scid.length + p.token.length + 16 := by
+    rw [hd']; simp only [List.length_cons, List.length_append, hv, htag]; omega
+  have e1 : d = (p.first :: (p.version ++ (UInt8.ofNat p.dcid.length :: (p.dcid ++
+      (UInt8.ofNat p.scid.length :: p.scid))))) ++ ((p.token ++ p.tag) ++ []) := by
+    rw [hd']; simp only [List.cons_append, List.append_assoc, List.append_nil]
+  have sx : Bytes.slice d (7 + p.dcid.length + p.scid.length)
+      (7 + p.dcid.length + p.scid.length + (d.length - (1 + 4 + 1 + p.dcid.length + 1 + p.scid.length))) = p.token ++ p.tag :=
+    slice_split d _ _ [] _ _ e1 (by simp only [List.length_cons, List.length_append, hv]; omega)
+      (by simp only [List.length_append, htag]; omega)
+  have hge : ¬ d.length < 1 + 4 + 1 + p.dcid.length + 1 + p.scid.length := by omega
+  unfold extract
+  rw [hd']
+  have hnz := beNat_cons_ne_zero p.first (p.version ++ (UInt8.ofNat p.dcid.length :: (p.dcid ++
+      (UInt8.ofNat p.scid.length :: (p.scid ++ (p.token ++ p.tag)))))) (isLong_ne_zero _ hL)
+  unfold Retry.first at hnz hd' ⊢
+  simp only [hnz, if_false, hL, if_true]
+  rw [← hd']
+  unfold extractLong
+  simp only [n1, s1, g5, ofOpt, bind, Except.bind, hto, n2, s2, n3, dv, n4, s4, if_neg hver, hT, hge, if_false, sx,
+    List.length_append, htag, Nat.add_sub_cancel, List.take_left, List.drop_left, Retry.toPkt, Retry.first]
+  rw [List.drop_eq_nil_of_le (by omega)]
+
+theorem flatten_length_ge (vs : List Bytes) (hne : vs ≠ []) (h4 : ∀ v ∈ vs, v.length = 4) : 4 ≤ vs.flatten.length := by
+  cases vs with
+  | nil => exact absurd rfl hne
+  | cons v r =>
+    simp only [List.flatten_cons, List.length_append, h4 v (by simp)]
+    omega
+
+/-- a Version Negotiation packet: the connection IDs are reported, the version list is not kept, and the
+    `UnboundLocalError` on `total_packet_len` is caught (the datagram ends here, as it should) -/
+theorem extract_verneg (mask : MaskFn) (env : Env) (isServer : Bool) (guessed : Bytes) (ts : Nat) (p : VerNeg)
+    (hwf : p.wf) (hscid : p.scid.length ≤ 63) :
+    extract mask env isServer guessed ts p.encode =
+      { pkts := [p.toPkt isServer ts], rest := [], err := some .unbound } := by
+  obtain ⟨hu, hdl, hsl, hne, h4⟩ := hwf
+  have hL := verneg_first_bits ⟨p.unused, hu⟩
+  simp only at hL
+  have hfl := flatten_length_ge p.versions hne h4
+  generalize hd : p.encode = d
+  have hd' : d = p.first :: ([0, 0, 0, 0] ++ (UInt8.ofNat p.dcid.length :: (p.dcid ++
+      (UInt8.ofNat p.scid.length :: (p.scid ++ p.versions.flatten))))) := by
+    rw [← hd]; simp only [VerNeg.encode, List.cons_append, List.append_assoc, List.nil_append]
+  obtain ⟨n1, s1, g5, n2, s2, n3, dv, n4, s4⟩ := header_facts _ _ _ _ _ d rfl hscid hd'
+  have hto := ofNat_toNat _ hdl
+  have hlen : d.length = 7 + p.dcid.length + p.scid.length + p.versions.flatten.length := by
+    rw [hd']; simp only [List.length_cons, List.length_append, List.length_nil]; omega
+  have n5 : need d (7 + p.dcid.length + p.scid.length + 4) = .ok () := by
+    unfold need; rw [if_neg (by omega)]
+  unfold extract
+  rw [hd']
+  have hnz := beNat_cons_ne_zero p.first ([0, 0, 0, 0] ++ (UInt8.ofNat p.dcid.length :: (p.dcid ++
+      (UInt8.ofNat p.scid.length :: (p.scid ++ p.versions.flatten))))) (isLong_ne_zero _ hL)
+  unfold VerNeg.first at hnz hd' ⊢
+  simp only [hnz, if_false, hL, if_true]
+  rw [← hd']
+  unfold extractLong
+  simp only [n1, s1, g5, ofOpt, bind, Except.bind, hto, n2, s2, n3, dv, n4, s4, if_true, n5, VerNeg.toPkt, VerNeg.first]
+
 end TLX.Lemmas.QuicDissect
